@@ -92,6 +92,10 @@ def run(ctx) -> None:
     ctx.rule("R02.11", "nlargest / nsmallest take their first n items through a borrowed view that can never close the source: what "
                        "the internal borrow hands out is a new generator that only iterates (R07.4, shared)")
     c07.r07_4(Relabel(ctx, "R02.11"))
+    from . import c03
+    ctx.rule("R02.12", "sorted / min / max never hand the user's key to list.sort / sorted / min / max of the standard library, which "
+                       "would use a coroutine as the key (R03.14, shared)")
+    c03.r03_14(Relabel(ctx, "R02.12"), "R02.12")  # (sorted / min / max with a key that is asynchronous in any flavour)
     from . import tooltables
     tooltables.aggregate_tables(ctx, "R02.8")
     ctx.floor("agg_cells_decided", 700)
